@@ -149,12 +149,14 @@ def rule_hash_vs_make(ctx):
     seen = {}
     unread = False
     for kind, eqs, full, pawn, preds in xt:
-        if any(tgl[0] == "?" for tgl in list(full) + list(pawn)) or (kind["castle"] and kind["target"] is None):
+        def unknown(tgl):
+            return tgl[0] == "?" or any(isinstance(x, str) and x.startswith("?") for x in tgl) or any(isinstance(x, tuple) and x and isinstance(x[0], str) and x[0] in ("expr",) for x in tgl)
+        if any(unknown(tgl) for tgl in list(full) + list(pawn)) or (kind["castle"] and kind["target"] is None):
             # a term of the delta that is no key lookup this rule knows (a fold over an array of optional keys, a
             # closure ...), or a castle path that does not say which castling it is: not read
             if not unread:
                 unread = True
-                ctx.lost(rid, "zobrist_xor: the delta contains terms that are not piece-square / castle / e.p. / side key lookups (%s)" % [tgl[1] for tgl in list(full) + list(pawn) if tgl[0] == "?"][:1])
+                ctx.lost(rid, "zobrist_xor: the delta contains terms that are not piece-square / castle / e.p. / side key lookups (%s)" % [str(tgl)[:80] for tgl in list(full) + list(pawn) if unknown(tgl)][:1])
             continue
         if kind["castle"]:
             cls = ("castle", kind["target"])
